@@ -3,6 +3,9 @@
 package x509
 
 import (
+	"bytes"
+	"net"
+
 	"github.com/zmap/zcrypto/encoding/asn1"
 	vr "github.com/zmap/zcrypto/internal/verifrt"
 )
@@ -136,5 +139,27 @@ func VerifH_C02_policies_json() {
 	panicked := vr.MayPanic(func() { _, err = cp.MarshalJSON() })
 	vr.Assert(!panicked, "the certificate-policies JSON view does not panic")
 	vr.Assert(err == nil, "the certificate-policies JSON view does not fail")
+	vr.Cover("done")
+}
+
+// C02: serialising an IP-range name constraint is a read-only operation — the parsed
+// certificate's address and mask are the same afterwards, so a second serialisation
+// starts from the same value (the JSON view is deterministic).
+// verif: covers=done
+func VerifH_C02_ip_subtree_json_is_read_only() {
+	// textual rendering of addresses is environment (net/netip formatting)
+	vr.Stub("(net.IP).String", func(ip net.IP) string { return "address" })
+	vr.Stub("(*net.IPNet).String", func(n *net.IPNet) string { return "network" })
+	ip := []net.IP{{10, 0, 0, 0}, {192, 168, 7, 0}, {0x20, 0x01, 0x0d, 0xb8, 0, 0, 0, 0, 0, 0, 0, 0, 0, 0, 0, 0}}[vr.Pick(vr.Int("ip", 0, 2))]
+	ones := []int{0, 8, 20, 31, 32}[vr.Pick(vr.Int("prefix", 0, 4))]
+	g := &GeneralSubtreeIP{Data: net.IPNet{IP: append(net.IP{}, ip...), Mask: net.CIDRMask(ones, 8*len(ip))}}
+	ipBefore, maskBefore := append([]byte{}, g.Data.IP...), append([]byte{}, g.Data.Mask...)
+	var err1, err2 error
+	panicked := vr.MayPanic(func() {
+		_, err1 = g.MarshalJSON()
+		_, err2 = g.MarshalJSON()
+	})
+	vr.Assert(!panicked && err1 == nil && err2 == nil, "the IP subtree view is total")
+	vr.Assert(bytes.Equal(g.Data.IP, ipBefore) && bytes.Equal(g.Data.Mask, maskBefore), "and leaves the certificate's address and mask untouched")
 	vr.Cover("done")
 }
